@@ -7,6 +7,9 @@ import (
 	"fmt"
 	"go/token"
 	"go/types"
+	"sort"
+	"strings"
+	"sync"
 
 	"golang.org/x/tools/go/ssa"
 
@@ -56,6 +59,9 @@ type Graph struct {
 	Dynamic bool
 	// PruneEdge: if it returns true the CFG edge from `iff` to successor index idx is not followed.
 	PruneEdge func(f *Frame, iff *ssa.If, idx int) bool
+	// Learn switches on the path-learned facts of FindPath (exponential in the number of tests of stable values
+	// on a path: for small graphs only).
+	Learn bool
 	Root      *Frame
 }
 
@@ -294,30 +300,128 @@ func CallAt(n Node) ssa.CallInstruction {
 // FindPath searches a path from any of `from` to a node satisfying target that
 // does not pass (strictly between) a node satisfying avoid. Returns nil if none.
 func (g *Graph) FindPath(from []Node, avoid func(Node) bool, target func(Node) bool) []Node {
+	// A search state is a node plus what the path has learned about values that cannot change within one
+	// activation of their function (parameters and free variables compared with nil, boolean parameters): an If
+	// testing such a value again is followed only along the edge that agrees, so a guard split into two
+	// consecutive ifs (`if err != nil && cb != nil {..}; if err != nil && cb == nil {..}`) is one guard.
+	type fid struct {
+		f *Frame
+		v ssa.Value
+	}
 	type key struct {
 		f     *Frame
 		in    ssa.Instruction
 		phase int
+		facts string
 	}
-	prev := map[key]*Node{}
+	type state struct {
+		n     Node
+		facts string // sorted "<id>=<0|1>;" entries
+	}
+	ids := map[fid]int{}
+	var idOwner []*Frame
+	idOf := func(f *Frame, v ssa.Value) int {
+		k := fid{f, v}
+		if id, ok := ids[k]; ok {
+			return id
+		}
+		ids[k] = len(idOwner)
+		idOwner = append(idOwner, f)
+		return len(idOwner) - 1
+	}
+	lookup := func(facts string, id int) (bool, bool) {
+		pre := fmt.Sprintf("%04d=", id)
+		i := strings.Index(facts, pre)
+		if i < 0 {
+			return false, false
+		}
+		return facts[i+len(pre)] == '1', true
+	}
+	add := func(facts string, id int, val bool) string {
+		e := fmt.Sprintf("%04d=0;", id)
+		if val {
+			e = fmt.Sprintf("%04d=1;", id)
+		}
+		parts := strings.SplitAfter(facts, ";")
+		parts = append(parts[:len(parts)-1], e)
+		sort.Strings(parts)
+		return strings.Join(parts, "")
+	}
+	dropFrame := func(facts string, f *Frame) string {
+		if facts == "" {
+			return facts
+		}
+		var keep []string
+		for _, e := range strings.SplitAfter(facts, ";") {
+			if e == "" {
+				continue
+			}
+			var id int
+			fmt.Sscanf(e, "%04d", &id)
+			own := false
+			for a := idOwner[id]; a != nil; a = a.Parent {
+				if a == f {
+					own = true
+					break
+				}
+			}
+			if !own {
+				keep = append(keep, e)
+			}
+		}
+		return strings.Join(keep, "")
+	}
+	// target and avoid are asked once per node (callers collect nodes in them)
+	type nkey struct {
+		f     *Frame
+		in    ssa.Instruction
+		phase int
+	}
+	tcache := map[nkey]bool{}
+	origTarget := target
+	target = func(n Node) bool {
+		k := nkey{n.F, n.Instr, n.Phase}
+		if r, ok := tcache[k]; ok {
+			return r
+		}
+		r := origTarget(n)
+		tcache[k] = r
+		return r
+	}
+	if avoid != nil {
+		acache := map[nkey]bool{}
+		origAvoid := avoid
+		avoid = func(n Node) bool {
+			k := nkey{n.F, n.Instr, n.Phase}
+			if r, ok := acache[k]; ok {
+				return r
+			}
+			r := origAvoid(n)
+			acache[k] = r
+			return r
+		}
+	}
+	prev := map[key]*state{}
 	seen := map[key]bool{}
-	var queue []Node
-	kf := func(n Node) key { return key{n.F, n.Instr, n.Phase} }
+	var queue []state
+	kf := func(s state) key { return key{s.n.F, s.n.Instr, s.n.Phase, s.facts} }
 	for _, n := range from {
-		if !seen[kf(n)] {
-			seen[kf(n)] = true
-			queue = append(queue, n)
+		s := state{n, ""}
+		if !seen[kf(s)] {
+			seen[kf(s)] = true
+			queue = append(queue, s)
 		}
 	}
 	for len(queue) > 0 {
-		n := queue[0]
+		cur := queue[0]
 		queue = queue[1:]
+		n := cur.n
 		if target(n) {
 			var path []Node
-			cur := &n
-			for cur != nil {
-				path = append([]Node{*cur}, path...)
-				cur = prev[kf(*cur)]
+			c := &cur
+			for c != nil {
+				path = append([]Node{c.n}, path...)
+				c = prev[kf(*c)]
 			}
 			return path
 		}
@@ -327,11 +431,44 @@ func (g *Graph) FindPath(from []Node, avoid func(Node) bool, target func(Node) b
 		if avoid != nil && avoid(n) {
 			continue
 		}
-		for _, s := range g.Succ(n) {
+		if iff, ok := n.Instr.(*ssa.If); ok && g.Learn {
+			if v, whenTrue, ok := stableTest(iff.Cond); ok {
+				id := idOf(n.F, v)
+				for idx, sb := range iff.Block().Succs {
+					if g.PruneEdge != nil && g.PruneEdge(n.F, iff, idx) {
+						continue
+					}
+					val := whenTrue == (idx == 0)
+					facts := cur.facts
+					if known, ok := lookup(facts, id); ok {
+						if known != val {
+							continue
+						}
+					} else {
+						facts = add(facts, id, val)
+					}
+					s := state{g.first(n.F, sb), facts}
+					if !seen[kf(s)] {
+						seen[kf(s)] = true
+						cc := cur
+						prev[kf(s)] = &cc
+						queue = append(queue, s)
+					}
+				}
+				continue
+			}
+		}
+		for _, sn := range g.Succ(n) {
+			facts := cur.facts
+			if facts != "" && sn.F != n.F && sn.F != nil && sn.F.Parent == n.F {
+				// a new activation of the callee: what an earlier activation learned does not carry over
+				facts = dropFrame(facts, sn.F)
+			}
+			s := state{sn, facts}
 			if !seen[kf(s)] {
 				seen[kf(s)] = true
-				nn := n
-				prev[kf(s)] = &nn
+				cc := cur
+				prev[kf(s)] = &cc
 				queue = append(queue, s)
 			}
 		}
@@ -339,11 +476,94 @@ func (g *Graph) FindPath(from []Node, avoid func(Node) bool, target func(Node) b
 	return nil
 }
 
+var cycleMu sync.Mutex
+var cycleCache = map[*ssa.BasicBlock]bool{}
+
+// onCycle: b can reach itself.
+func onCycle(b *ssa.BasicBlock) bool {
+	cycleMu.Lock()
+	defer cycleMu.Unlock()
+	if r, ok := cycleCache[b]; ok {
+		return r
+	}
+	seen := map[*ssa.BasicBlock]bool{}
+	work := append([]*ssa.BasicBlock(nil), b.Succs...)
+	r := false
+	for len(work) > 0 && !r {
+		x := work[len(work)-1]
+		work = work[:len(work)-1]
+		if x == b {
+			r = true
+			break
+		}
+		if seen[x] {
+			continue
+		}
+		seen[x] = true
+		work = append(work, x.Succs...)
+	}
+	cycleCache[b] = r
+	return r
+}
+
+// stableTest: cond (through negations) compares a parameter or free variable with nil, or is a boolean
+// parameter or free variable; returns the value and the truth of "v != nil" / "v" when cond is true.
+func stableTest(cond ssa.Value) (ssa.Value, bool, bool) {
+	truth := true
+	for i := 0; i < 4; i++ {
+		if u, ok := cond.(*ssa.UnOp); ok && u.Op == token.NOT {
+			cond, truth = u.X, !truth
+			continue
+		}
+		break
+	}
+	stable := func(v ssa.Value) bool {
+		switch x := v.(type) {
+		case *ssa.Parameter, *ssa.FreeVar:
+			return true
+		case ssa.Instruction:
+			// computed once per activation: the defining block is on no cycle
+			return x.Block() != nil && !onCycle(x.Block())
+		}
+		return false
+	}
+	b, ok := cond.(*ssa.BinOp)
+	if !ok {
+		if stable(cond) {
+			return cond, truth, true
+		}
+		return nil, false, false
+	}
+	if b.Op != token.EQL && b.Op != token.NEQ {
+		return nil, false, false
+	}
+	var o ssa.Value
+	if c, ok := b.Y.(*ssa.Const); ok && c.IsNil() {
+		o = b.X
+	} else if c, ok := b.X.(*ssa.Const); ok && c.IsNil() {
+		o = b.Y
+	}
+	if o == nil || !stable(o) {
+		return nil, false, false
+	}
+	if b.Op == token.EQL {
+		truth = !truth
+	}
+	return o, truth, true
+}
+
 // All enumerates every reachable node (for collecting events).
 func (g *Graph) All() []Node {
 	var out []Node
+	type nk struct {
+		f     *Frame
+		in    ssa.Instruction
+		phase int
+	}
+	seen := map[nk]bool{}
 	g.FindPath([]Node{g.Entry()}, nil, func(n Node) bool {
-		if !n.IsExit() {
+		if k := (nk{n.F, n.Instr, n.Phase}); !n.IsExit() && !seen[k] {
+			seen[k] = true
 			out = append(out, n)
 		}
 		return false
